@@ -607,6 +607,13 @@ fn supplied_schemas() -> Vec<(String, usize)> {
         ("simple point \"a helper type\" ( int x; \"x\" int y; \"y\" )\ntable main \"rows\" ( string chrom; \"c\" uint chromStart; \"s\" uint chromEnd; \"e\" string name; \"n\" uint score; \"v\" )".to_string(), 5),
         ("object big \"seven\" ( int a; \"\" int b; \"\" int c; \"\" int d; \"\" int e; \"\" int f; \"\" int g; \"\" )\ntable small \"rows\" ( string chrom; \"c\" uint chromStart; \"s\" uint chromEnd; \"e\" string name; \"n\" )".to_string(), 4),
         ("table idx \"indexes\" ( string chrom primary; \"c\" uint chromStart index; \"s\" uint chromEnd unique; \"e\" string name index[12]; \"n\" uint id auto; \"i\" )".to_string(), 5),
+        // schemas longer than the 8 KiB buffers between the file and the reader / writer (long
+        // comments are ordinary in published schemas): total lengths 8191, 8192, 8193, 16385, 70001
+        crate::wfam::long_schema(8191),
+        crate::wfam::long_schema(8192),
+        crate::wfam::long_schema(8193),
+        crate::wfam::long_schema(16385),
+        crate::wfam::long_schema(70001),
     ]
 }
 
